@@ -157,6 +157,32 @@ def expected_bytes(key):
     return key.public_key().public_bytes(serialization.Encoding.Raw, serialization.PublicFormat.Raw)
 
 
+PEM_FORMS = [None, None, None, "ecparams", "bag-attributes", "comment", "bom", "crlf", "trailing-text", "leading-blank-lines", "public-key-after"]
+EC_PARAMS = {"secp256r1": b"BggqhkjOPQMBBw==", "secp384r1": b"BgUrgQQAIg==", "secp521r1": b"BgUrgQQAIw=="}
+
+
+def pem_file_form(pem, form, kt, key):
+    """The same private key as other tools write the PEM file (all of these load with the standard PEM reader): `openssl ecparam -genkey`
+    puts an EC PARAMETERS block first, PKCS#12 exports put bag attributes first, editors add comments, a BOM or CRLF line ends."""
+    if form == "ecparams":
+        return (b"-----BEGIN EC PARAMETERS-----\n" + EC_PARAMS[kt] + b"\n-----END EC PARAMETERS-----\n" if kt in EC_PARAMS else b"") + pem
+    if form == "bag-attributes":
+        return b"Bag Attributes\n    friendlyName: signing key\n    localKeyID: 01 02 03\nKey Attributes: <No Attributes>\n" + pem
+    if form == "comment":
+        return b"# production signing key - do not distribute\n" + pem
+    if form == "bom":
+        return b"\xef\xbb\xbf" + pem
+    if form == "crlf":
+        return pem.replace(b"\n", b"\r\n")
+    if form == "trailing-text":
+        return pem + b"\n# end of file\n"
+    if form == "leading-blank-lines":
+        return b"\n\n  \n" + pem
+    if form == "public-key-after":
+        return pem + key.public_key().public_bytes(serialization.Encoding.PEM, serialization.PublicFormat.SubjectPublicKeyInfo)
+    return pem
+
+
 def parse_c(text, array_name):
     m = re.search(re.escape(array_name) + r"\[\]\s*=\s*\{(.*?)\};", text, re.S)
     if not m:
@@ -188,7 +214,7 @@ def judge_convert(case, acc, ctx, clang=False):
         fmt = serialization.PrivateFormat.PKCS8 if case.get("pkcs8", True) or kt not in CURVES else serialization.PrivateFormat.TraditionalOpenSSL
         pem = os.path.join(d, "key_private.pem")
         with open(pem, "wb") as fh:
-            fh.write(key.private_bytes(serialization.Encoding.PEM, fmt, serialization.NoEncryption()))
+            fh.write(pem_file_form(key.private_bytes(serialization.Encoding.PEM, fmt, serialization.NoEncryption()), case.get("pem_form"), kt, key))
         o = case["opts"]
         hdr = ftr = ""
         want = expected_bytes(key)
@@ -246,7 +272,7 @@ def judge_convert(case, acc, ctx, clang=False):
             cls = sorted(set(coord_class(want[:w]) + coord_class(want[w:])))
         default_opts = o == default_options()
         acc.case(nt_key=(kt, tuple(cls), json.dumps(o, sort_keys=True)) if (cls or not default_opts) else None,
-                 classes=["convert", f"type:{kt}"] + [f"coord:{c}" for c in cls] + (["default-layout"] if default_opts else ["custom-layout"]) + (["compiled"] if clang else []),
+                 classes=["convert", f"type:{kt}"] + ([f"pem-form:{case['pem_form']}"] if case.get("pem_form") else []) + [f"coord:{c}" for c in cls] + (["default-layout"] if default_opts else ["custom-layout"]) + (["compiled"] if clang else []),
                  sample=case, sample_key=f"conv/{kt}/{'+'.join(cls)}")
         if raised is not None:
             raise Violation(f"convert failed on a valid {kt} key: {type(raised).__name__}: {str(raised)[:200]}", "C file", bucket="convert-failed")
@@ -377,7 +403,7 @@ def run_shard(ctx, spec):
             o = default_options()
             if i % 3 == 1:
                 o.update(columns=1 + i % 40, indent=i % 9, tab=bool(i & 1))
-            _try(acc, "convert", {"type": t, "scalar": k, "opts": o, "pkcs8": bool(i % 2)}, judge_convert, ctx)
+            _try(acc, "convert", {"type": t, "scalar": k, "opts": o, "pkcs8": bool(i % 2), "pem_form": PEM_FORMS[i % len(PEM_FORMS)]}, judge_convert, ctx)
     elif kind == "convert-clang":
         for t in TYPES:
             for k in (43, 44, 99991):
@@ -385,7 +411,7 @@ def run_shard(ctx, spec):
     else:
         route = spec["route"]
         strat = st.fixed_dictionaries({"type": st.sampled_from(TYPES), "scalar": st.one_of(st.integers(1, 5000), st.integers(1, 2**250)), "opts": opts_s(), "pkcs8": st.booleans(),
-                                       "prior_scalar": st.sampled_from([None, None, 77, 123456789])}).map(
+                                       "prior_scalar": st.sampled_from([None, None, 77, 123456789]), "pem_form": st.sampled_from(PEM_FORMS)}).map(
             lambda c: {**c, "route": route})
         run_given(ctx, acc, "convert", strat, lambda c, a: judge_convert(c, a, ctx), seed=ctx.seed * 1000 + spec["i"], n=spec["n"])
     return acc
@@ -407,6 +433,6 @@ def replay(ctx, check, case):
 def finalize(ctx, m, ev):
     c = m["counters"]
     ev["coverage"]["exhaustive_scope"] = "keys: 40-combination product and all ordered type pairs per encoding enumerated; convert: constructed boundary keys + sampled layouts"
-    for n in ["accepted", "reported-unsupported", "run:1", "prefix:dotted", "existing-output-overwritten", "coord:lead00", "coord:lead04", "coord:tail00", "type:ed448", "custom-layout", "keys-volume", "pair:leading-zero-coordinate"]:
+    for n in ["accepted", "reported-unsupported", "run:1", "prefix:dotted", "existing-output-overwritten", "coord:lead00", "coord:lead04", "coord:tail00", "type:ed448", "custom-layout", "keys-volume", "pair:leading-zero-coordinate", "pem-form:ecparams", "pem-form:bom", "pem-form:crlf", "pem-form:bag-attributes"]:
         if not c.get(n):
             raise boot.HarnessError(f"interesting class {n} is empty")
